@@ -386,8 +386,13 @@ class Eraser(ast.NodeTransformer):
         return body
 
     def visit_FunctionDef(self, n):
+        # default values and decorators are expressions of the ENCLOSING scope (the transformer visits them; their markers and
+        # interactions are erased like anywhere else)
+        n.args.defaults = [self.visit(d) for d in n.args.defaults]
+        n.args.kw_defaults = [d and self.visit(d) for d in n.args.kw_defaults]
+        n.decorator_list = [self.visit(d) for d in n.decorator_list]
         if getattr(self, "_in_root", False):
-            return n  # nested definitions are passed through untouched
+            return n  # the BODY of a nested definition is passed through untouched
         self._in_root = True
         body = list(n.body)
         doc = []
